@@ -11,7 +11,7 @@ open Rox
 namespace LimitMono
 
 /-- The same context with another limit. -/
-def wl (L' : Nat) (c : Ctx) : Ctx := { c with nodesLimit := L' }
+@[reducible] def wl (L' : Nat) (c : Ctx) : Ctx := { c with nodesLimit := L' }
 
 /-- `wl` on the context component of a pair `(ctx, x)`. -/
 def wl1 {β} (L' : Nat) (p : Ctx × β) : Ctx × β := (wl L' p.1, p.2)
@@ -65,23 +65,21 @@ theorem mapL_bind_congr {α β γ} {w : β → γ} {m : Res α} {k : α → Res 
   | panic s => rfl
   | fuel => rfl
 
-@[simp] theorem wl_positions (L' : Nat) (c : Ctx) : (wl L' c).positions = c.positions := rfl
-@[simp] theorem wl_nsStartIdx (L' : Nat) (c : Ctx) : (wl L' c).nsStartIdx = c.nsStartIdx := rfl
-@[simp] theorem wl_curAttrs (L' : Nat) (c : Ctx) : (wl L' c).curAttrs = c.curAttrs := rfl
-@[simp] theorem wl_awaiting (L' : Nat) (c : Ctx) : (wl L' c).awaiting = c.awaiting := rfl
-@[simp] theorem wl_parentPrefixes (L' : Nat) (c : Ctx) : (wl L' c).parentPrefixes = c.parentPrefixes := rfl
-@[simp] theorem wl_entityFloor (L' : Nat) (c : Ctx) : (wl L' c).entityFloor = c.entityFloor := rfl
-@[simp] theorem wl_entities (L' : Nat) (c : Ctx) : (wl L' c).entities = c.entities := rfl
-@[simp] theorem wl_afterText (L' : Nat) (c : Ctx) : (wl L' c).afterText = c.afterText := rfl
-@[simp] theorem wl_parentId (L' : Nat) (c : Ctx) : (wl L' c).parentId = c.parentId := rfl
-@[simp] theorem wl_tagName (L' : Nat) (c : Ctx) : (wl L' c).tagName = c.tagName := rfl
-@[simp] theorem wl_ld (L' : Nat) (c : Ctx) : (wl L' c).ld = c.ld := rfl
-@[simp] theorem wl_doc (L' : Nat) (c : Ctx) : (wl L' c).doc = c.doc := rfl
-@[simp] theorem wl_trace (L' : Nat) (c : Ctx) : (wl L' c).trace = c.trace := rfl
-@[simp] theorem wl_maxDepth (L' : Nat) (c : Ctx) : (wl L' c).maxDepth = c.maxDepth := rfl
-@[simp] theorem wl_nodesLimit (L' : Nat) (c : Ctx) : (wl L' c).nodesLimit = L' := rfl
-
-macro "wl_proj" : tactic => `(tactic| simp +instances only [wl_positions, wl_nsStartIdx, wl_curAttrs, wl_awaiting, wl_parentPrefixes, wl_entityFloor, wl_entities, wl_afterText, wl_parentId, wl_tagName, wl_ld, wl_doc, wl_trace, wl_maxDepth])
+theorem wl_positions (L' : Nat) (c : Ctx) : (wl L' c).positions = c.positions := rfl
+theorem wl_nsStartIdx (L' : Nat) (c : Ctx) : (wl L' c).nsStartIdx = c.nsStartIdx := rfl
+theorem wl_curAttrs (L' : Nat) (c : Ctx) : (wl L' c).curAttrs = c.curAttrs := rfl
+theorem wl_awaiting (L' : Nat) (c : Ctx) : (wl L' c).awaiting = c.awaiting := rfl
+theorem wl_parentPrefixes (L' : Nat) (c : Ctx) : (wl L' c).parentPrefixes = c.parentPrefixes := rfl
+theorem wl_entityFloor (L' : Nat) (c : Ctx) : (wl L' c).entityFloor = c.entityFloor := rfl
+theorem wl_entities (L' : Nat) (c : Ctx) : (wl L' c).entities = c.entities := rfl
+theorem wl_afterText (L' : Nat) (c : Ctx) : (wl L' c).afterText = c.afterText := rfl
+theorem wl_parentId (L' : Nat) (c : Ctx) : (wl L' c).parentId = c.parentId := rfl
+theorem wl_tagName (L' : Nat) (c : Ctx) : (wl L' c).tagName = c.tagName := rfl
+theorem wl_ld (L' : Nat) (c : Ctx) : (wl L' c).ld = c.ld := rfl
+theorem wl_doc (L' : Nat) (c : Ctx) : (wl L' c).doc = c.doc := rfl
+theorem wl_trace (L' : Nat) (c : Ctx) : (wl L' c).trace = c.trace := rfl
+theorem wl_maxDepth (L' : Nat) (c : Ctx) : (wl L' c).maxDepth = c.maxDepth := rfl
+theorem wl_nodesLimit (L' : Nat) (c : Ctx) : (wl L' c).nodesLimit = L' := rfl
 
 theorem mapL_bind_congr2 {α β} {w : α → α} {w2 : β → β} {m : Res α} {k k' : α → Res β}
     (hk : ∀ a, k (w a) = mapL w2 (k' a)) : (mapL w m >>= k) = mapL w2 (m >>= k') := by
@@ -120,7 +118,7 @@ theorem setNode_wl (L' : Nat) (c : Ctx) (i : Nat) (n : NodeData) :
     (wl L' c).setNode i n = wl L' (c.setNode i n) := rfl
 
 macro "wl_norm" : tactic =>
-  `(tactic| (try dsimp +instances only
+  `(tactic| (try dsimp +instances only [wl1, wl2, Ctx.log, Ctx.setNode]
              try simp +instances only [log_wl, nodeAt_wl, setNode_wl, wl_positions, wl_nsStartIdx, wl_curAttrs, wl_awaiting, wl_parentPrefixes, wl_entityFloor, wl_entities, wl_afterText, wl_parentId, wl_tagName, wl_ld, wl_doc, wl_trace, wl_maxDepth]))
 
 /-- case bash for the functions that never look at the limit -/
@@ -137,13 +135,13 @@ macro "lim_bash" : tactic =>
 
 theorem mergeText_wl (L' : Nat) (c : Ctx) : (wl L' c).mergeText = mapL (wl L') c.mergeText := by
   unfold Ctx.mergeText
-  wl_proj
+  wl_norm
   lim_bash
 
 theorem resetAfterText_wl (L' : Nat) (c : Ctx) :
     (wl L' c).resetAfterText = mapL (wl L') c.resetAfterText := by
   unfold Ctx.resetAfterText
-  wl_proj
+  wl_norm
   simp only [mergeText_wl]
   lim_bash
 
@@ -151,19 +149,19 @@ theorem resolveNamespaces_wl (L' : Nat) (c : Ctx) :
     resolveNamespaces (wl L' c) = mapL (wl1 L') (resolveNamespaces c) := by
   unfold resolveNamespaces
   simp only [nodeAt_wl]
-  wl_proj
+  wl_norm
   lim_bash
 
 theorem resolveAttributes_wl (txt : Bytes) (L' : Nat) (c : Ctx) (nss : Range) :
     resolveAttributes txt (wl L' c) nss = mapL (wl1 L') (resolveAttributes txt c nss) := by
   unfold resolveAttributes
-  wl_proj
+  wl_norm
   lim_bash
 
 theorem normalizeAttribute_wl (T : Tables) (txt : Bytes) (L' : Nat) (c : Ctx) (v : Span) :
     normalizeAttribute T txt (wl L' c) v = mapL (wl1 L') (normalizeAttribute T txt c v) := by
   unfold normalizeAttribute
-  wl_proj
+  wl_norm
   lim_bash
 
 theorem processAttribute_wl (T : Tables) (txt : Bytes) (L' : Nat) (c : Ctx) (r : Range) (q e : Nat)
@@ -195,23 +193,228 @@ theorem appendNode_sim (L' : Nat) (c : Ctx) (k : Kind) (r : Range) (hL : c.nodes
     wl_norm
     lim_bash
 
+macro "sim_split" : tactic =>
+  `(tactic| (split <;> try (rename_i hsplit; simp only [hsplit, ↓reduceIte, Bool.false_eq_true, reduceCtorEq])))
+
 theorem appendText_sim (L' : Nat) (c : Ctx) (t : Str) (r : Range) (hL : c.nodesLimit ≤ L') :
     SimR (wl L') (c.appendText t r) ((wl L' c).appendText t r) := by
   unfold Ctx.appendText
   wl_norm
-  split
-  · refine SimR.bind (SimR.bindp (appendNode_sim L' _ _ _ hL) (fun a b _ => SimR.of_eq rfl))
-      (fun a _ => SimR.of_eq rfl)
+  sim_split
+  · refine SimR.bind (appendNode_sim L' _ _ _ hL) (fun a _ => ?_)
+    exact SimR.of_eq rfl
   · exact SimR.of_eq rfl
+
+theorem processCdata_sim (L' : Nat) (c : Ctx) (t : Span) (r : Range) (hL : c.nodesLimit ≤ L') :
+    SimR (wl L') (processCdata c t r) (processCdata (wl L' c) t r) := by
+  unfold processCdata
+  split <;> exact appendText_sim L' _ _ _ hL
+
+theorem flushBuffer_sim (L' : Nat) (c : Ctx) (b : TextBuffer) (r : Range) (hL : c.nodesLimit ≤ L') :
+    SimR (wl L') (flushBuffer c b r) (flushBuffer (wl L' c) b r) := by
+  unfold flushBuffer
+  split
+  · exact SimR.bind_same (fun a _ => appendText_sim L' _ _ _ hL)
+  · exact SimR.of_eq rfl
+
+theorem processElement_sim (txt : Bytes) (L' : Nat) (c : Ctx) (e : EndKind) (r : Range)
+    (hL : c.nodesLimit ≤ L') :
+    SimR (wl L') (processElement txt c e r) (processElement txt (wl L' c) e r) := by
+  unfold processElement
+  wl_norm
+  sim_split
+  · sim_split
+    · exact SimR.of_eq (mapL_errPos _ _ _ _)
+    · exact SimR.of_eq rfl
+  · refine SimR.bind (SimR.of_eq (resolveNamespaces_wl L' c)) (fun ⟨c1, nss⟩ h1 => ?_)
+    have l1 := (resolveNamespaces_sizeOk _ _ _ h1).1
+    wl_norm
+    refine SimR.bind (SimR.of_eq (resolveAttributes_wl txt L'
+      { c1 with nsStartIdx := c1.doc.ns.treeOrder.size } nss)) (fun ⟨c2, attrs⟩ h2 => ?_)
+    have l2 := (resolveAttributes_sizeOk _ _ _ _ _ h2).1
+    have hL2 : c2.nodesLimit ≤ L' := by rw [l2]; dsimp only; rw [l1]; exact hL
+    wl_norm
+    split
+    · refine SimR.bind_same (fun tagNs _ => ?_)
+      refine SimR.bind (appendNode_sim L' c2 _ _ hL2) (fun a _ => ?_)
+      exact SimR.of_eq rfl
+    · refine SimR.of_eq ?_
+      lim_bash
+    · refine SimR.bind_same (fun tagNs _ => ?_)
+      refine SimR.bind (appendNode_sim L' c2 _ _ hL2) (fun a _ => ?_)
+      exact SimR.of_eq rfl
+
+theorem feed_cons (step : Token → Ctx → Res Ctx) (t : Token) (ts : List Token) (c : Ctx) :
+    feed step (t :: ts) c = (step t c >>= fun c' => feed step ts c') := by
+  simp only [feed]; cases step t c <;> rfl
+
+theorem runTokens_eq {α} (step : Token → Ctx → Res Ctx) (toks : List Token) (stop : Res α) (c : Ctx) :
+    runTokens step toks stop c =
+      (feed step toks c >>= fun c' =>
+        match stop with
+        | .ok _ => .ok c'
+        | .err e => .err e
+        | .panic s => .panic s
+        | .fuel => .fuel) := by
+  unfold runTokens; cases feed step toks c <;> rfl
+
+/-- What the simulation needs from a builder step. -/
+def StepOk (L' : Nat) (step : Token → Ctx → Res Ctx) : Prop :=
+  (∀ t c, c.nodesLimit ≤ L' → SimR (wl L') (step t c) (step t (wl L' c))) ∧
+  (∀ t c c', step t c = .ok c' → SizeOk c c')
+
+theorem feed_sim (L' : Nat) (step : Token → Ctx → Res Ctx) (hstep : StepOk L' step) :
+    ∀ (toks : List Token) (c : Ctx), c.nodesLimit ≤ L' →
+      SimR (wl L') (feed step toks c) (feed step toks (wl L' c)) := by
+  intro toks
+  induction toks with
+  | nil => intro c _; exact SimR.of_eq rfl
+  | cons t ts ih =>
+    intro c hL
+    rw [feed_cons, feed_cons]
+    refine SimR.bind (hstep.1 t c hL) (fun c1 h1 => ?_)
+    exact ih c1 (by rw [(hstep.2 _ _ _ h1).1]; exact hL)
+
+theorem runTokens_sim {α} (L' : Nat) (step : Token → Ctx → Res Ctx) (hstep : StepOk L' step)
+    (toks : List Token) (stop : Res α) (c : Ctx) (hL : c.nodesLimit ≤ L') :
+    SimR (wl L') (runTokens step toks stop c) (runTokens step toks stop (wl L' c)) := by
+  rw [runTokens_eq, runTokens_eq]
+  refine SimR.bind (feed_sim L' step hstep toks c hL) (fun c1 _ => ?_)
+  exact SimR.of_eq (by cases stop <;> rfl)
+
+theorem processTextLoop_sim (T : Tables) (txt : Bytes) (L' : Nat) (lower : Token → Ctx → Res Ctx)
+    (hlower : StepOk L' lower) (range : Range) :
+    ∀ (fuel : Nat) (s : Stream) (buf : TextBuffer) (c : Ctx), c.nodesLimit ≤ L' →
+      SimR (wl2 L') (processTextLoop T txt lower range fuel s buf c)
+        (processTextLoop T txt lower range fuel s buf (wl L' c)) := by
+  intro fuel
+  induction fuel with
+  | zero => intro s buf c _; exact SimR.of_eq rfl
+  | succ fuel ih =>
+    intro s buf c hL
+    simp only [processTextLoop]
+    wl_norm
+    sim_split
+    · exact SimR.of_eq rfl
+    · refine SimR.bind_same (fun ⟨s1, chunk⟩ _ => ?_)
+      wl_norm
+      split
+      · exact ih _ _ _ hL
+      · sim_split
+        · exact ih _ _ _ hL
+        · exact ih _ _ _ hL
+      · refine SimR.bind (flushBuffer_sim L' c buf range hL) (fun c1 h1 => ?_)
+        have l1 := (flushBuffer_sizeOk _ _ _ _ h1).1
+        have hL1 : c1.nodesLimit ≤ L' := by rw [l1]; exact hL
+        wl_norm
+        split
+        · exact SimR.of_eq (mapL_errAt _ _ _ _)
+        · wl_norm
+          split
+          · exact SimR.of_eq (mapL_errAt _ _ _ _)
+          · wl_norm
+            refine SimR.bind (runTokens_sim L' lower hlower _ _ _ hL1) (fun c2 h2 => ?_)
+            have l2 := (runTokens_sizeOk lower hlower.2 _ _ _ _ h2).1
+            have hL2 : c2.nodesLimit ≤ L' := by rw [l2]; exact hL1
+            wl_norm
+            sim_split
+            · exact SimR.of_eq rfl
+            · exact ih _ _ _ hL2
+
+theorem processText_sim (T : Tables) (txt : Bytes) (L' : Nat) (lower : Token → Ctx → Res Ctx)
+    (hlower : StepOk L' lower) (c : Ctx) (t : Span) (r : Range) (hL : c.nodesLimit ≤ L') :
+    SimR (wl L') (processText T txt lower c t r) (processText T txt lower (wl L' c) t r) := by
+  unfold processText
+  split
+  · exact appendText_sim L' _ _ _ hL
+  · dsimp only
+    refine SimR.bind (processTextLoop_sim T txt L' lower hlower r _ _ _ c hL) (fun ⟨buf, c1⟩ h1 => ?_)
+    have l1 := (processTextLoop_sizeOk T txt lower hlower.2 _ _ _ _ _ _ _ h1).1
+    exact flushBuffer_sim L' c1 buf r (by rw [l1]; exact hL)
+
+theorem tokenStep_sim (T : Tables) (txt : Bytes) (L' : Nat) (lower : Token → Ctx → Res Ctx)
+    (hlower : StepOk L' lower) (t : Token) (c : Ctx) (hL : c.nodesLimit ≤ L') :
+    SimR (wl L') (tokenStep T txt lower t c) (tokenStep T txt lower t (wl L' c)) := by
+  unfold tokenStep
+  dsimp only
+  simp only [log_wl]
+  have hL0 : (c.log (.token t)).nodesLimit ≤ L' := hL
+  generalize c.log (.token t) = c0 at hL0 ⊢
+  split
+  · refine SimR.bind (SimR.of_eq (resetAfterText_wl L' c0)) (fun c1 h1 => ?_)
+    have l1 := (resetAfterText_sizeOk _ _ h1).1
+    refine SimR.bind (appendNode_sim L' c1 _ _ (by rw [l1]; exact hL0)) (fun a _ => ?_)
+    exact SimR.of_eq rfl
+  · refine SimR.bind (SimR.of_eq (resetAfterText_wl L' c0)) (fun c1 h1 => ?_)
+    have l1 := (resetAfterText_sizeOk _ _ h1).1
+    refine SimR.bind (appendNode_sim L' c1 _ _ (by rw [l1]; exact hL0)) (fun a _ => ?_)
+    exact SimR.of_eq rfl
+  · exact SimR.of_eq rfl
+  · refine SimR.bind (SimR.of_eq (resetAfterText_wl L' c0)) (fun c1 h1 => ?_)
+    sim_split
+    · exact SimR.of_eq (mapL_errPos _ _ _ _)
+    · exact SimR.of_eq rfl
+  · exact SimR.of_eq (processAttribute_wl T txt L' c0 _ _ _ _ _ _)
+  · refine SimR.bind (SimR.of_eq (resetAfterText_wl L' c0)) (fun c1 h1 => ?_)
+    have l1 := (resetAfterText_sizeOk _ _ h1).1
+    exact processElement_sim txt L' c1 _ _ (by rw [l1]; exact hL0)
+  · exact processText_sim T txt L' lower hlower c0 _ _ hL0
+  · exact processCdata_sim L' c0 _ _ hL0
+
+theorem token_stepOk (T : Tables) (txt : Bytes) (L' : Nat) : ∀ d, StepOk L' (token T txt d) := by
+  intro d
+  induction d with
+  | zero => exact ⟨fun t c _ => SimR.of_eq rfl, token_sizeOk T txt 0⟩
+  | succ d ih =>
+    exact ⟨fun t c hL => tokenStep_sim T txt L' (token T txt d) ih t c hL, token_sizeOk T txt (d + 1)⟩
+
+theorem initCtx_wl (txt : Bytes) (opt : Opt) (L L' : Nat) :
+    initCtx txt { opt with nodesLimit := L' } =
+      mapL (wl L') (initCtx txt { opt with nodesLimit := L }) := by
+  unfold initCtx
+  dsimp only
+  lim_bash
+
+theorem initCtx_limit (txt : Bytes) (opt : Opt) (c : Ctx) (h : initCtx txt opt = .ok c) :
+    c.nodesLimit = opt.nodesLimit := by
+  unfold initCtx at h
+  rw [Res.bind_eq_ok] at h
+  obtain ⟨ns, _, h⟩ := h
+  res_norm at h
+  subst h
+  rfl
+
+theorem finish_wl (L' : Nat) (c : Ctx) : finish (wl L' c) = mapL (wl L') (finish c) := by
+  unfold finish
+  wl_norm
+  lim_bash
+
+theorem parseCtx_sim (T : Tables) (txt : Bytes) (d : Nat) (opt : Opt) (L L' : Nat) (hle : L ≤ L') :
+    SimR (wl L') (parseCtx T txt d { opt with nodesLimit := L })
+      (parseCtx T txt d { opt with nodesLimit := L' }) := by
+  unfold parseCtx
+  refine SimR.bind (SimR.of_eq (initCtx_wl txt opt L L')) (fun c0 h0 => ?_)
+  have l0 : c0.nodesLimit = L := initCtx_limit _ _ _ h0
+  dsimp only
+  refine SimR.bind (runTokens_sim L' _ (token_stepOk T txt L' d) _ _ c0 (by rw [l0]; exact hle))
+    (fun c1 _ => ?_)
+  exact SimR.of_eq (finish_wl L' c1)
 
 end LimitMono
 
+open LimitMono in
 /-- **Monotonicity in the limit** (all inputs, all other options): unless the parse with limit `L`
 fails with `NodesLimitReached`, the parse with any larger limit `L'` returns exactly the same
 result (the same document, or the same error). -/
 theorem parse_limit_mono (T : Tables) (txt : Bytes) (opt : Opt) (L L' : Nat) (hle : L ≤ L')
     (h : parse T txt { opt with nodesLimit := L } ≠ .err .nodesLimitReached) :
     parse T txt { opt with nodesLimit := L' } = parse T txt { opt with nodesLimit := L } := by
-  sorry
+  have hsim : SimR (fun d : Doc => d) (parse T txt { opt with nodesLimit := L })
+      (parse T txt { opt with nodesLimit := L' }) := by
+    unfold parse
+    refine SimR.bind (parseCtx_sim T txt depthFuel opt L L' hle) (fun c _ => ?_)
+    exact SimR.of_eq rfl
+  rw [hsim h]
+  cases parse T txt { opt with nodesLimit := L } <;> rfl
 
 end Rox.Lemmas
